@@ -59,6 +59,17 @@ class RefServer:
                 self.sock.inbox.eof = True
                 return
             b['left'] -= len(data)
+        srng = self.cfg.get('stream_rng')
+        if srng is not None:
+            # TCP-like arrival: segment boundaries are unrelated to packet boundaries -- a segment may
+            # end inside a frame and carry the start of the next one
+            cuts = sorted(srng.sample(range(1, len(data)), min(len(data) - 1, srng.choice([0, 1, 1, 2, 3])))) \
+                if len(data) > 1 else []
+            segs = self.sock.inbox.segs
+            merge = bool(segs) and srng.random() < 0.7
+            tail = segs.pop() if merge else b''
+            self.sock.inbox.feed(tail + data, [len(tail) + c for c in cuts])
+            return
         seg = self.cfg.get('segment')
         if seg:
             cuts = list(range(seg, len(data), seg))
